@@ -190,7 +190,7 @@ func sig(gs []gor) string {
 
 // waitQuiet returns once every goroutine of the cluster is parked and nothing moved between two looks.
 func (p *prop) waitQuiet() (gs []gor, quiet bool) {
-	deadline := time.Now().Add(15 * time.Second)
+	deadline := time.Now().Add(90 * time.Second) // generous: the machine may be heavily loaded
 	prev := "?"
 	for time.Now().Before(deadline) {
 		time.Sleep(150 * time.Microsecond)
@@ -307,7 +307,12 @@ func (p *prop) observe(ret string, gs []gor, quiet bool) string {
 	if !quiet {
 		lis = "noquiet"
 	}
-	s := p.cl.Snapshot(50 * time.Millisecond)
+	// when everything is parked a mutex that cannot be taken is held for good; otherwise be patient
+	tmo := 300 * time.Millisecond
+	if !quiet {
+		tmo = 5 * time.Second
+	}
+	s := p.cl.Snapshot(tmo)
 	if s.Locked {
 		return fmt.Sprintf("%s locked lis=%s par=%d", ret, lis, p.parked)
 	}
